@@ -235,6 +235,8 @@ class ContractDB:
         self.nullable = set() # "Type.Field" pointer/interface fields that may be nil in a well-formed AST
         self.wfexclude = {}   # interface short name -> set of implementer short names never produced by the parser
         self.wfalso = {}      # struct short name -> list of extra well-formedness conditions over `self`
+        self.relations = set()
+        self.functions = {}
         self.closed = set()   # interface type names (pkg.Name) whose dynamic types are exactly the implementers known to the module
         self.externpure = []  # package path prefixes whose functions/methods are deterministic and side-effect free (uninterpreted)
         self.pkg_safety = {}  # package path -> properties the panic-freedom obligations of its functions count for
@@ -308,6 +310,16 @@ class ContractDB:
                 c.pkg = pkg
                 self.axioms.append(c)
                 last = c
+            elif word == 'function':
+                # `function name Sort`: an uninterpreted function of values with an Int / Bool / Str result
+                ws = rest.split()
+                self.functions[ws[0]] = ws[1] if len(ws) > 1 else 'Int'
+                last = None
+            elif word == 'relation':
+                # an uninterpreted relation over values (a name for "x stands in this relation to y"); it gets its
+                # meaning only from the clauses that assume or prove it
+                self.relations.update(rest.split())
+                last = None
             elif word == 'closed':
                 self.closed.update(rest.split())
                 last = None
